@@ -1,13 +1,16 @@
 """C18 — map iterators stay valid while entries are removed or added under them (DESIGN.md section 3, C18).
 
-One differential stream per implementation (tools/mapcheck.py); an implementation is switched on
-by adding it to STREAMS once its Lean model is registered in lean/QbVerif/Driver/Map.lean (`impls`)
+One differential stream per implementation (tools/mapcheck.py); an implementation is moved from
+ORACLE_STREAMS (real code checked by the python dictionary oracle only) to STREAMS (exact comparison
+with its Lean model as well) once its Lean model is registered in lean/QbVerif/Driver/Map.lean (`impls`)
 and its theorems in lean/theorems.d/C18.json."""
 import mapcheck
 import mapgen
 
 # implementations whose model has landed: "ht", "sl", "trie"
 STREAMS = ["ht"]
+# implementations without a Lean model: real code against the python dictionary oracle only
+ORACLE_STREAMS = ["sl", "trie"]
 
 
 def run(ctx):
@@ -20,4 +23,5 @@ def run(ctx):
                 "rm-twice-zombie, get-zombie, reinsert-while-zombie, deferred-delete, multi-iter, iter-abandoned, "
                 "next-after-end, ...); distinct by SHA1 of the op lines")
     mapcheck.run(ctx, "C18", STREAMS, mapgen.gen_c18, mapgen.oracle_c18, 1500, 30000,
-                 extra_selfcheck=lambda c: mapcheck.monitor_selfcheck(c, STREAMS, c.scale(150, 1500)))
+                 extra_selfcheck=lambda c: mapcheck.monitor_selfcheck(c, STREAMS, c.scale(150, 1500)),
+                 oracle_streams=ORACLE_STREAMS, noracle=(700, 10000))
